@@ -480,6 +480,18 @@ func mergeSchemaSlice(schemas []*IntrospectionQueryResult, mode MergeMode) (*Int
 	if len(schemas) == 0 {
 		return nil, errors.New("no schemas")
 	}
+	// The fold below merges each schema into the result so far: what an earlier schema lacks
+	// (Intersection) or adds (Union) hides or supplies fields before the later schemas are
+	// looked at, so on its own the fold would accept or reject an incompatible set depending
+	// on the order of the schemas, i.e. on how versions and services are named. Check every
+	// pair first: if all pairs merge, the fold succeeds, with the same result, in every order.
+	for i := range schemas {
+		for _, other := range schemas[i+1:] {
+			if _, err := mergeSchemas(schemas[i], other, mode); err != nil {
+				return nil, err
+			}
+		}
+	}
 	merged := schemas[0]
 	for _, schema := range schemas[1:] {
 		var err error
